@@ -27,13 +27,13 @@ typereg = sys.modules.setdefault("sim_typereg", types.ModuleType("sim_typereg"))
 
 PROFILES = {
     # op weights: construct, set_leaf, set_compound, bind, copy, drop, raw, grow, misuse, restart, json
-    "construct": dict(w=dict(construct=50, set_leaf=10, set_compound=4, bind=4, copy=6, drop=4, raw=10, grow=8, misuse=0, restart=0, json=2)),
+    "construct": dict(w=dict(construct=50, set_leaf=10, set_compound=4, bind=4, copy=6, drop=4, raw=10, grow=8, misuse=0, restart=0, json=2, kill=3)),
     "neighbours": dict(w=dict(construct=30, set_leaf=25, set_compound=10, bind=5, copy=5, drop=3, raw=15, grow=5, misuse=0, restart=0, json=0)),
-    "two_handles": dict(w=dict(construct=25, set_leaf=30, set_compound=10, bind=5, copy=3, drop=15, raw=4, grow=8, misuse=0, restart=0, json=0)),
+    "two_handles": dict(w=dict(construct=25, set_leaf=30, set_compound=10, bind=5, copy=6, drop=15, raw=4, grow=8, misuse=0, restart=0, json=0, kill=4)),
     "assign": dict(w=dict(construct=15, set_leaf=45, set_compound=18, bind=3, copy=2, drop=4, raw=3, grow=10, misuse=0, restart=0, json=0)),
     "misuse": dict(w=dict(construct=25, set_leaf=12, set_compound=5, bind=3, copy=3, drop=3, raw=6, grow=5, misuse=38, restart=0, json=0), force_p=dict(strings=0.9, dyn_items=0.8, urefs=0.6, dyn_struct=0.9)),
     "refs": dict(w=dict(construct=25, set_leaf=20, set_compound=2, bind=25, copy=5, drop=4, raw=4, grow=15, misuse=0, restart=0, json=0), force=dict(refs=True, urefs=True)),
-    "copies": dict(w=dict(construct=25, set_leaf=22, set_compound=5, bind=8, copy=25, drop=3, raw=4, grow=8, misuse=0, restart=0, json=0)),
+    "copies": dict(w=dict(construct=25, set_leaf=22, set_compound=5, bind=8, copy=25, drop=6, raw=4, grow=8, misuse=0, restart=0, json=0, kill=7)),
     "restart": dict(w=dict(construct=25, set_leaf=20, set_compound=5, bind=6, copy=4, drop=3, raw=4, grow=8, misuse=0, restart=25, json=0)),
     "json": dict(w=dict(construct=35, set_leaf=20, set_compound=5, bind=0, copy=3, drop=2, raw=4, grow=5, misuse=0, restart=0, json=26), force=dict(refs=False, urefs=False)),
 }
@@ -514,7 +514,13 @@ class GenSource:
             place = {"buf": w.bufs.index(o.buf) if o.buf in w.bufs[: len(w.spec["buffers"])] else 0, "how": "default"}
         else:
             place = self.place(w)
-        return {"op": "copy", "obj": o.k, "place": place, "id": self.new_id()}
+        op = {"op": "copy", "obj": o.k, "place": place, "id": self.new_id()}
+        if rng.random() < 0.3 and w.schema[o.t]["k"] in ("struct", "array"):
+            # copy-construct from a nested part (a view obtained through the parent)
+            parts = [p for p, t, n in M.enum_paths(w.schema, o.t, o.node, maxn=200, through_refs=False) if p and w.schema[t]["k"] in ("struct", "array") and isinstance(p[-1], (str, list))]
+            if parts:
+                op["part"] = rng.choice(parts)
+        return op
 
     def drop(self, w):
         cands = [o for o in w.live_objs() if o.hnd is not None and w.schema[o.t]["k"] != "str"]
@@ -687,7 +693,15 @@ class Step:
         self.kind = op["op"]
         self.touched = set()  # object ids whose value may legitimately change
 
+    # oracles that never consult the model (rebuilt view vs kept handle; independent decoder):
+    # when they trip under another property's lens the model is still in step with the system,
+    # so the run can soundly go on looking for that lens's own violations (DESIGN 2.6)
+    SOFT = {"view_ne_handle", "view_meta_ne_handle", "view_read_raised", "decoder_ne_model", "layout_rule_broken"}
+
     def viol(self, prop, oracle, sig, detail=""):
+        if oracle in self.SOFT and prop != self.lens and prop in ("C05", "C06"):
+            self.res.foreign_seen.add(prop)
+            return
         self.viols.append(Viol(prop, oracle, [str(s) for s in sig], detail))
 
     # -- driver
@@ -1022,16 +1036,26 @@ class Step:
     def op_copy(self):
         w, op = self.w, self.op
         src = self.get_obj(op["obj"])
-        cls = w.classes[src.t]
         if w.schema[src.t]["k"] == "str" and src.hnd is None:
             raise Skip()
+        src_t, src_node, src_handle = src.t, src.node, src.handle()
+        if op.get("part"):
+            try:
+                src_t, src_node, _, _ = M.node_at(w.schema, src.t, src.node, op["part"])
+            except Exception:
+                raise Skip()
+            if src_node is None or w.schema[src_t]["k"] not in ("struct", "array"):
+                raise Skip()
+            src_handle = src.walk(op["part"])
+            self.res.probe("copy_of_nested_part")
+        cls = w.classes[src_t]
         hb = self.holder_bufid(op["place"])
         same_buf = hb is not None and hb == src.bufid
         try:
-            pk = self.resolve_place(op["place"], cls, (src.handle(),), {})
+            pk = self.resolve_place(op["place"], cls, (src_handle,), {})
             for b in w.bufs:
                 b._ctl.drain()
-            hnd = cls(src.handle(), **pk)
+            hnd = cls(src_handle, **pk)
         except Exception as e:
             self.outcome = "raised:" + exc_sig(e)
             self.viol("C09", "copy_raised", ["copy", exc_sig(e), typegen.features(w.schema, src.t)], f"{type(e).__name__}: {e}")
@@ -1041,15 +1065,15 @@ class Step:
             self.allowed.append((hnd._buffer, pk["_offset"], pk["_offset"] + size))
             hnd._buffer._sim_allocs.append((pk["_offset"], size))
         same_buf = hnd._buffer is src.buf
-        node = M.copy_node(w.schema, src.t, src.node, same_buf)
-        o = self.register(src.t, node, hnd)
+        node = M.copy_node(w.schema, src_t, src_node, same_buf)
+        o = self.register(src_t, node, hnd)
         o.copy_of = src.k
         self.new_obj = o
         if not same_buf:
             self.res.fault("foreign_operand")
-        self.res.features.add(f"copy:{typegen.features(w.schema, src.t)}:{'same' if same_buf else 'other_ctx' if hnd._buffer.context is not src.buf.context else 'other_buf'}")
+        self.res.features.add(f"copy:{typegen.features(w.schema, src_t)}:{'same' if same_buf else 'other_ctx' if hnd._buffer.context is not src.buf.context else 'other_buf'}:{'part' if op.get('part') else 'whole'}")
         self.res.probe("copy_" + ("same_buffer" if same_buf else "other_buffer"))
-        if typegen.has_refs(w.schema, src.t):
+        if typegen.has_refs(w.schema, src_t):
             self.res.probe("copy_of_reference_bearing_object")
         self.check_obj(o, "C09", what="copy_not_equal")
         # storage disjoint from the source's
